@@ -243,6 +243,19 @@ def r18d(ctx):
         else:
             ctx.proved("R18d", f, "Builder.build_tree", l, "guard reachable",
                        "the scan runs whenever the child has non-leaf grandchildren and cycle checking is on")
+    # the leaf shortcut that skips the scan must use the same expansion as the traversal itself
+    leafdefs = [s_ for s_ in walk_no_nested(bt.node) if isinstance(s_, ast.Assign) and isinstance(s_.targets[0], ast.Name)
+                and "leaves" in s_.targets[0].id]
+    for s_ in leafdefs:
+        uses_expand = [c for c in ast.walk(s_.value) if isinstance(c, ast.Call) and self_attr(c.func) == "expand"]
+        if uses_expand:
+            ctx.proved("R18d", f, "Builder.build_tree", s_, "leaf shortcut uses expand()",
+                       "a grandchild counts as a leaf only if self.expand(grandchild) yields nothing - the same expansion the traversal uses")
+        else:
+            ctx.violation("R18d", f, "Builder.build_tree", s_, "leaf shortcut uses expand()",
+                          f"`{norm(s_, 90)}` decides 'leaf' without calling self.expand(): objects expanded by "
+                          f"default_expander (custom classes) have children but count as leaves, so a cycle running only "
+                          f"through such objects skips the ancestor scan and is expanded forever")
     # recursive builders
     for fq in ("graphtage.json.build_tree",):
         g = m.functions.get(fq)
@@ -260,10 +273,46 @@ def r18d(ctx):
             ctx.proved("R18d", g.file, "build_tree", rec[0], "recursive builder guarded", "recursion is guarded by an ancestor test")
 
 
+def r18e(ctx):
+    m = ctx.model
+    ctx.rule("R18e", "builders keep no per-object memo keyed by id(): object ids are recycled and objects are mutable, so a "
+                     "builder reused for a second conversion would replay stale children")
+    n = 0
+    bq = m.need_class("Builder")
+    for q in sorted(m.subclasses(bq)):
+        for name, (kind, v) in m.attrs[q].items():
+            if kind != "def":
+                continue
+            for c in walk_no_nested(v.node):
+                key = None
+                if isinstance(c, ast.Subscript) and self_attr(c.value) and isinstance(c.slice, ast.Call) and call_name(c.slice) == "id":
+                    key = c
+                elif isinstance(c, ast.Call) and isinstance(c.func, ast.Attribute) and c.func.attr in ("get", "setdefault", "pop") \
+                        and self_attr(c.func.value) and c.args and isinstance(c.args[0], ast.Call) and call_name(c.args[0]) == "id":
+                    key = c
+                if key is not None:
+                    n += 1
+                    ctx.violation("R18e", v.file, v.short, key, f"id()-keyed memo in {v.short}",
+                                  f"`{norm(key, 60)}` memoises on id(obj) in a field of the builder: after the object is "
+                                  f"mutated, or a new object is allocated at a recycled address, the builder returns the old "
+                                  f"expansion and the tree no longer equals the object")
+    if n == 0:
+        ctx.proved("R18e", m.files[m.classes[bq][0]], "Builder", None, "no id()-keyed memo", "no builder field is indexed by id(obj)")
+
+
+def r18f(ctx):
+    from .c10 import recursive_options
+    ctx.rule("R18f", "every recursive build call passes the options object on, so nested levels are converted under the same "
+                     "build options as the top level (identically through every entry point)")
+    recursive_options(ctx, "R18f")
+
+
 def run(ctx):
     r18a(ctx)
     r18b(ctx)
     r18c(ctx)
     r18d(ctx)
+    r18e(ctx)
+    r18f(ctx)
     ctx.assume("equality of round-tripped values (floats, big ints, str subclasses) is a statement about values and is "
                "not decided beyond the structural clauses")
